@@ -285,6 +285,27 @@ def paths(nb, iters=(0, 1, 2), min_for=0):
     return res
 
 
+def count_paths(nb, iters=(0, 1, 2)):
+    n = 1
+    for s in nb:
+        k = s[0]
+        if k == "if":
+            n *= count_paths(s[2], iters) + count_paths(s[3], iters)
+        elif k == "wh":
+            b = count_paths(s[2], iters)
+            n *= sum(b ** i for i in iters)
+        elif k == "for":
+            b = count_paths(s[3], iters)
+            n *= sum(b ** i for i in iters)
+        if n > 10 ** 9:
+            return n
+    return n
+
+
+PATH_CAP = 4000
+ORACLE_SKIPPED = [0]
+
+
 def read_classes(nb):
     """if-subset: (var, line) -> 'all' | 'none' | 'some', over all branch-outcome vectors."""
     reads = {}
@@ -331,10 +352,10 @@ def unused_classes(nb):
     return {v: ("all" if all(bs) else ("none" if not any(bs) else "some")) for v, bs in per.items()}
 
 
-def unset_read_sites(nb, min_for=0):
+def unset_read_sites(nb, min_for=0, iters=(0, 1, 2)):
     """Loops: sites (var, line) read while unassigned on some REAL execution (stops at the first NameError)."""
     need = set()
-    for p in paths(nb, min_for=min_for):
+    for p in paths(nb, iters=tuple(sorted(set(iters))), min_for=min_for):
         assigned = set()
         for k, v, l in p:
             if k == "r":
@@ -358,6 +379,9 @@ def oracle(nb, real):
     bad = []
     loops = has_kind(nb, "wh") or has_kind(nb, "for")
     if not loops:
+        if count_paths(nb) > 20 * PATH_CAP:
+            ORACLE_SKIPPED[0] += 1
+            return bad
         cls = read_classes(nb)
         none_read = {v for (v, l), c in cls.items() if c == "none"}
         for (v, l), c in sorted(cls.items()):
@@ -384,11 +408,17 @@ def oracle(nb, real):
                 bad.append(({"kind": "unused-spurious"},
                             "%s is read after its last assignment on every path but is reported unused" % NAMES[v]))
     else:
-        need = unset_read_sites(nb)
+        iters = (0, 1, 2)
+        if count_paths(nb, iters) > PATH_CAP:
+            iters = (0, 1)
+            if count_paths(nb, iters) > PATH_CAP:
+                ORACLE_SKIPPED[0] += 1       # too many executions to enumerate: no verdict on this program
+                return bad
+        need = unset_read_sites(nb, iters=iters)
         miss = {(v, l) for (v, l) in need if not got.get((NAMES[v], l))}
         if miss:
             # root cause: does the miss disappear when every `for` is assumed to run at least once?
-            still = {(v, l) for (v, l) in unset_read_sites(nb, min_for=1) if not got.get((NAMES[v], l))}
+            still = {(v, l) for (v, l) in unset_read_sites(nb, min_for=1, iters=iters) if not got.get((NAMES[v], l))}
             for (v, l) in sorted(miss):
                 cause = "other" if (v, l) in still else "for-zero-iterations"
                 bad.append(({"kind": "unset-read-missed", "cause": cause},
